@@ -110,7 +110,53 @@ def chk_pair(case, note):
     return None
 
 
+def _real_pairs():
+    from vlib import corpus
+    last = {}
+    out = []
+    for t, m, icao, tc in corpus.adsb_timed():
+        if not 9 <= tc <= 18:
+            continue
+        v = int(m, 16)
+        par = (v >> (112 - 32 - 22)) & 1
+        prev = last.get((icao, 1 - par))
+        if prev is not None and 0 <= t - prev[0] <= 8:
+            out.append((prev[1], m, prev[0], t) if par == 1 else (m, prev[1], t, prev[0]))
+        last[(icao, par)] = (t, m)
+    return out
+
+
+def enum_corpus(ctx):
+    n = len(_real_pairs())
+    for k, start in enumerate(range(0, n, 50)):
+        if ctx.mine(k):
+            yield {"start": start}
+
+
+def chk_corpus(case, note):
+    """real even/odd pairs at most 8 s apart: decode with the library, re-encode with the reference encoder -> the transmitted YZ/XZ"""
+    n = 0
+    for m0, m1, t0, t1 in _real_pairs()[case["start"]:case["start"] + 50]:
+        r = call(pms.adsb.position, m0, m1, t0, t1)
+        if r[0] != "ok":
+            return "position(%s, %s, %r, %r) raised %r on a real pair" % (m0, m1, t0, t1, r[1:])
+        if r[1] is None:
+            continue
+        newer, par = (m0, 0) if t0 > t1 else (m1, 1)
+        v = int(newer, 16) >> 24
+        yz, xz = (v >> 17) & 0x1FFFF, v & 0x1FFFF
+        e = cpr.encode(r[1][0], r[1][1], par)
+        if abs(e["yz"] - yz) % 131072 not in (0, 1, 131071) or abs(e["xz"] - xz) % 131072 not in (0, 1, 131071):
+            return "real pair %s / %s decodes to %r, which the reference encoder maps to YZ=%d XZ=%d, transmitted YZ=%d XZ=%d" % (m0, m1, r[1], e["yz"], e["xz"], yz, xz)
+        n += 1
+    note.evals = max(1, n)
+    note.cls("real-pairs")
+    note.nt(n > 0)
+    return None
+
+
 LEGS = [
+    Leg("corpus", chk_corpus, enum=enum_corpus, exhaustive=True, doc="real even/odd pairs from the repository's sample data: decoded position re-encodes (reference encoder) to the transmitted CPR fields"),
     Leg("global_pair", chk_pair, strategy=s_pair, quick=32000, thorough=1500000,
         doc="even/odd airborne pair x time order x argument order x {position, airborne_position}"),
 ]
